@@ -790,20 +790,24 @@ fn wrap_cases(a: &Args, variant: &str) -> Vec<Vec<String>> {
         let mut na = 1usize;
         // cycle through the other channel ids (a little less / more than a full round now and then)
         let rounds = match rng.below(10) { 0 => channels.saturating_sub(2), 1 => channels, _ => channels - 1 };
+        let drain = act >= 2 && rng.chance(70);     // the server receives and drops every request of the rounds
         for r in 1..=rounds {
             tag += 1;
             lines.push(format!("send 0 {r} {tag}"));
-            if rng.chance(if act >= 2 { 60 } else { 30 }) { lines.push(format!("recvreq 0 {na}")); if rng.chance(70) { lines.push(format!("dactive 0 {na}")); } na += 1; }
+            if drain || rng.chance(30) { lines.push(format!("recvreq 0 {na}")); if drain || rng.chance(70) { lines.push(format!("dactive 0 {na}")); } na += 1; }
             lines.push(format!("dpending 0 {r}"));
         }
         let rn = rounds + 1;
         tag += 1;
         lines.push(format!("send 0 {rn} {tag}"));
+        // the server may hold the new request next to the old one (same client, same channel, other request id)
+        if act >= 2 && rng.chance(50) { lines.push(format!("recvreq 0 {na}")); na += 1; }
         // now the focused tail
         let mut a0_alive = true;
         let mut held = 0usize;
         for _ in 0..rng.range(4, 12) {
-            let l = match rng.below(12) {
+            let l = match rng.below(13) {
+                12 if na > 1 => format!("aconnected 0 {}", na - 1),
                 0 | 1 => format!("connected 0 {rn}"),
                 2 => "aconnected 0 0".to_string(),
                 3 | 4 => { tag += 1; format!("respond 0 0 {tag}") }
